@@ -43,6 +43,8 @@ def file_cfg(draw):
     elif kind == "guppi":
         cfg.update(nchan=draw(st.sampled_from([2, 4, 3])), spf=draw(st.sampled_from([32, 64])), nfiles=draw(st.sampled_from([2, 3])),
                    bw=draw(st.sampled_from([12.5, -12.5, -8.0, 4.0])), pol=draw(st.sampled_from(["LIN", "CIRC"])), seed=draw(st.integers(0, 1)))
+        if draw(st.booleans()):
+            cfg["names"] = "not_lexical"  # file names whose alphabetical order is not the recording order (the list given is)
     elif kind == "dada_stokes":
         cfg.update(nchan=draw(st.sampled_from([3, 4, 8])), spf=draw(st.sampled_from([16, 32])), nframes=draw(st.sampled_from([2, 3])),
                    bw=draw(st.sampled_from([8.0, -8.0, -2000.0, 16.0])), seed=draw(st.integers(0, 1)))
